@@ -93,7 +93,7 @@ fn run_seq(t0: i64, ops: &[Op]) -> Option<crate::props::c15::HistoryResult> {
 }
 
 pub fn run(ctx: &Ctx) -> Report {
-    let cases: u32 = ctx.tier.pick(150, 3000);
+    let cases: u32 = ctx.tier.pick(150, 15_000);
     let max_len = ctx.tier.pick(120usize, 300usize);
     par_workers(ctx.threads, |wi| {
         let mut rep = Report::new(RULE);
